@@ -25,7 +25,7 @@ RULE = (
 )
 TRUSTED = ["T0 translator (flag tables, RUNS_SCRIPTS, safe characters)", "T1 correspondence harness", "real GNU env/xargs/find/timeout/nice/nohup and bash 5.2 in the jail (T2: the option grammar of the real tools is validated, not proved)"]
 ASSUMES = [
-    "handlers not modelled in Lean (uv, tar, fzf, docker/kubectl apart from exec extraction) are oracles of the model (World.classify); their delegation is covered by the monotonicity search only",
+    "handlers not modelled in Lean (fzf; uv apart from `uv run`; docker/kubectl apart from exec extraction) are oracles of the model (World.classify); their delegation is covered by the monotonicity search only",
     "arch, caffeinate, BSD script, fd, uv, fzf, docker, kubectl are not installed here: their option grammar is taken from the handlers' own tables (model-relative claim)",
     "GNU long-option abbreviations (--split-s=…) are outside what the handlers recognise (see DESIGN.md)",
 ]
@@ -158,8 +158,8 @@ def corr_handlers(model, r, n):
 
 # ------------------------------------------------------------------ wrapper forms
 
-INNERS_OK = [["grep", "-v", "x", "f"], ["ls", "-v"], ["ls"], ["ls", "-la"], ["cat", "f"], ["git", "status"], ["echo", "hi"], ["ls", "a b"], ["ls", "#"], ["ls", ";"], ["grep", "x", "f"]]
-INNERS_BAD = [["rm", "-rfv", "x"], ["mv", "-v", "a", "b"], ["foo", "-V"], ["chmod", "-Rv", "777", "f"], ["rm", "x"], ["foo"], ["mv", "a", "b"], ["curl", "http://x"], ["chmod", "777", "f"], ["rm", "-rf", "a b"], ["rm", "$(x)"], ["denied"], ["foo", "-h"], ["rm", "--help", "x"]]
+INNERS_OK = [["2ok", "-l"], ["grep", "-v", "x", "f"], ["ls", "-v"], ["ls"], ["ls", "-la"], ["cat", "f"], ["git", "status"], ["echo", "hi"], ["ls", "a b"], ["ls", "#"], ["ls", ";"], ["grep", "x", "f"]]
+INNERS_BAD = [["rm", "-rfv", "x"], ["mv", "-v", "a", "b"], ["foo", "-V"], ["chmod", "-Rv", "777", "f"], ["rm", "x"], ["foo"], ["mv", "a", "b"], ["curl", "http://x"], ["chmod", "777", "f"], ["rm", "-rf", "a b"], ["rm", "$(x)"], ["denied"], ["foo", "-h"], ["rm", "--help", "x"], ["7zdenied", "x", "a.7z"], ["7zdenied"], ["5s", "x"], ["30", "x"], ["1.5", "rm"]]
 TRAIL = [[], [], [], ["-h"], ["--help"], ["--version"], ["x", "-h"]]
 
 
